@@ -10,15 +10,14 @@ NAME = r"[A-Za-z]+\d+(?:_\$_\d+)?"
 
 
 def m_name_leak(v, params):
-    # the evaluator compiles the branches of an `if` with (com ..) from their *unreduced* text and runs them on an
-    # environment made of parameter names; a variable (parameter, let binding) inside the chosen branch comes out as
-    # its own name, quoted
-    idents = set(re.findall(r"\b(?:P|L|S|Z|KONST)\d+\b", " ".join(v["defs"]) + " " + v["expr"] + " " + v["args"]))
+    # the REPL has no parameter list: a *free variable* of an open expression inside the branch of an if is compiled by
+    # (com ..) as an unbound name and comes back quoted in the residual (or as data in a constant answer)
+    idents = set(re.findall(r"\b(?:P|L|S|Z|KONST)\d+\b", v["args"]))
     r = v["repl"]
     if "const" in r:
         return cc.contains_name(r["const"], idents)
     if "residual" in r:
-        for m in re.finditer(r"1 \. (" + NAME + r")\b", r["residual"]):
+        for m in re.finditer(r"(?:1|q) \. (" + NAME + r")\b", r["residual"]):
             if m.group(1).split("_$_")[0] in idents:
                 return True
     return False
